@@ -1,2 +1,21 @@
-import MlsVerif.Model.TreeMath
-def main : IO Unit := IO.println "ok"
+import Driver.C20
+import Driver.C13
+/-! `mlsmodel <mode>`: reads queries from stdin, prints one model answer per line. -/
+
+def splitWs (line : String) : List String :=
+  (line.trimAscii.toString.splitOn " ").filter (· ≠ "")
+
+partial def loopS {σ : Type} (h : IO.FS.Stream) (out : IO.FS.Stream) (f : σ → List String → σ × String) (s : σ) : IO Unit := do
+  let line ← h.getLine
+  if line.isEmpty then return ()
+  let (s', o) := f s (splitWs line)
+  out.putStrLn o
+  loopS h out f s'
+
+def main (args : List String) : IO UInt32 := do
+  let stdin ← IO.getStdin
+  let stdout ← IO.getStdout
+  match args with
+  | ["c20"] => loopS stdin stdout (fun (_ : Unit) ws => ((), Driver.C20.handle ws)) (); return 0
+  | ["c13"] => loopS stdin stdout Driver.C13.step {}; return 0
+  | _ => IO.eprintln "usage: mlsmodel <mode>"; return 2
